@@ -23,6 +23,16 @@ HANDLERS = ['default', 'default', 'debug', 'reraise', 're_raises', 're_raises_ht
 ACCEPTS = [None, 'text/html', 'application/json', 'application/xml', 'text/plain', '*/*', 'image/png', 'garbage;;q=x']
 
 
+def make_decliner():
+    # ONE pre-built "declined" error per application that its code hands back again and again
+    # (per application: an error object remembers the route it first came from)
+    shared = cerrors.NotFound('declined, try the next route', is_breaking=False)
+
+    def decline_with_shared_error():
+        return shared
+    return decline_with_shared_error
+
+
 class RaisingRenderErrorHandler(ErrorHandler):
     def render_error(self, request, _error):
         raise RuntimeError('render_error is broken')
@@ -77,7 +87,10 @@ def build_app(cfg):
                         POST('/only-post', make_function('EP2', False, default_value='resp', bound=False)),
                         # two method-restricted routes on one path: a wrong-method request touches both
                         GET('/item', make_function('ITEM_GET', False, default_value='resp', bound=False)),
-                        POST('/item', make_function('ITEM_POST', False, default_value='resp', bound=False))],
+                        POST('/item', make_function('ITEM_POST', False, default_value='resp', bound=False)),
+                        # a route that always declines with the shared error object, followed by one that answers POST only
+                        ('/decl', make_decliner()),
+                        POST('/decl', make_function('DECL_POST', False, default_value='resp', bound=False))],
                        middlewares=objs('app'), error_handler=eh, **kw)
 
 
@@ -101,7 +114,13 @@ def expected(cfg, op):
         faults = dict((('EP' if k == 'EP2' else k), v) for k, v in op['faults'].items() if k not in ('EP', 'RN'))
         out = dispatch_outcome(app_fn, app_fn, faults, 'resp', False)
     elif path == '/item':
-        return ('status', 200) if method in ('GET', 'HEAD', 'POST') else http(405)
+        if method not in ('GET', 'HEAD', 'POST'):
+            return http(405)
+        leaf = 'ITEM_POST' if method == 'POST' else 'ITEM_GET'
+        faults = dict((('EP' if k == leaf else k), v) for k, v in op['faults'].items() if k not in ('EP', 'RN', 'EP2'))
+        out = dispatch_outcome(app_fn, app_fn, faults, 'resp', False)
+    elif path == '/decl':
+        return ('status', 200) if method == 'POST' else http(404)
     elif path != '/x':
         return http(404)
     else:
@@ -169,25 +188,26 @@ class C08(Check):
         cfg = self.gen_config(S['config'])
         fn = functions(cfg)
         rng, frng = S['ops'], S['faults']
-        positions = fn['request'] + fn['endpoint'] + ['EP'] + fn['render'] + (['RN'] if cfg['has_render'] else []) + ['EP2']
+        positions = fn['request'] + fn['endpoint'] + ['EP'] + fn['render'] + (['RN'] if cfg['has_render'] else []) + ['EP2', 'ITEM_GET', 'ITEM_POST']
         frng.shuffle(positions)
         ops = []
 
         def req(faults):
-            path = '/only-post' if 'EP2' in faults else '/x'
-            return {'method': 'POST' if path == '/only-post' else rng.choice(['GET', 'GET', 'POST', 'HEAD']), 'path': path,
-                    'accept': rng.choice(ACCEPTS), 'faults': faults}
+            path = '/only-post' if 'EP2' in faults else '/item' if ('ITEM_GET' in faults or 'ITEM_POST' in faults) else '/x'
+            method = ('POST' if path == '/only-post' else 'POST' if 'ITEM_POST' in faults else rng.choice(['GET', 'HEAD']) if path == '/item'
+                      else rng.choice(['GET', 'GET', 'POST', 'HEAD']))
+            return {'method': method, 'path': path, 'accept': rng.choice(ACCEPTS), 'faults': faults}
         for pos in positions:
-            ops.append(req({pos: self.gen_fault(frng, pos in ('EP', 'RN', 'EP2'))}))
+            ops.append(req({pos: self.gen_fault(frng, pos in ('EP', 'RN', 'EP2', 'ITEM_GET', 'ITEM_POST'))}))
             if rng.random() < 0.3:
-                ops.append({'method': rng.choice(['GET', 'DELETE', 'PUT']), 'path': rng.choice(['/nope', '/only-post', '/x/y', '/item', '/item']),
+                ops.append({'method': rng.choice(['GET', 'DELETE', 'PUT']), 'path': rng.choice(['/nope', '/only-post', '/x/y', '/item', '/item', '/decl']),
                             'accept': rng.choice(ACCEPTS), 'faults': {}})
         # something happens to ANOTHER application of the same process (default handler, dev server with debugger)
         if rng.random() < 0.5:
             ops.insert(rng.randint(0, len(ops)), {'other_app': rng.choice(['serve-debugger', 'serve-plain', 'construct-debug', 'reraise-handler'])})
         for _ in range(2 if tier == 'quick' else 4):
             two = frng.sample(positions, min(2, len(positions)))
-            ops.append(req(dict((p, self.gen_fault(frng, p in ('EP', 'RN', 'EP2'))) for p in two if p != 'EP2')))
+            ops.append(req(dict((p, self.gen_fault(frng, p in ('EP', 'RN', 'EP2'))) for p in two if p not in ('EP2', 'ITEM_GET', 'ITEM_POST'))))
         return {'world': 'chain', 'seed': seed, 'config': cfg, 'ops': ops}
 
     # ------------------------------------------------------------------
@@ -220,7 +240,9 @@ class C08(Check):
                   {'method': 'GET', 'path': '/only-post', 'accept': None, 'faults': {}},
                   {'method': 'GET', 'path': '/item', 'accept': None, 'faults': {}},
                   {'method': 'POST', 'path': '/item', 'accept': None, 'faults': {}},
-                  {'method': 'PUT', 'path': '/item', 'accept': None, 'faults': {}}]
+                  {'method': 'PUT', 'path': '/item', 'accept': None, 'faults': {}},
+                  {'method': 'POST', 'path': '/decl', 'accept': None, 'faults': {}},     # answered by the second route
+                  {'method': 'GET', 'path': '/decl', 'accept': None, 'faults': {}}]      # nobody answers: the shared error is the response
 
         def snapshot(seq):
             out = []
